@@ -141,6 +141,11 @@ pub fn run(ctx: &mut Ctx) {
         }
         let mut parts: Vec<Pset> = vec![anc.clone(); nd];
         let mut applied: Vec<Vec<String>> = vec![vec![]; nd];
+        // every (map, key) any descendant has added so far, with its value: two different edits that
+        // happen to produce the same key with different values (e.g. two unknown pairs with an
+        // empty key and the same type byte) are *conflicting*, not "disjoint or identical",
+        // additions; such an edit is dropped
+        let mut added: std::collections::HashMap<(usize, Vec<u8>), Vec<u8>> = std::collections::HashMap::new();
         for (u, ii, oi, seed) in &pool {
             // each edit goes to a non-empty random subset of descendants (identical material)
             let mask = ctx.rng.gen_range(1..(1u32 << nd));
@@ -160,6 +165,33 @@ pub fn run(ctx: &mut Ctx) {
                 if trial.unique_id().ok() != Some(id0) {
                     ctx.count("edit-changes-id(skipped; see C08)");
                     continue;
+                }
+                // disjoint or identical with what the other descendants added
+                let tr = raw_of(&trial);
+                let mut conflict = false;
+                let mut fresh: Vec<((usize, Vec<u8>), Vec<u8>)> = Vec::new();
+                for (mi, m) in tr.maps.iter().enumerate() {
+                    for (kk, vv) in m {
+                        if combined_rule(mi, kk) {
+                            continue;
+                        }
+                        let in_ancestor = anc_raw.maps.get(mi).map_or(false, |am| am.iter().any(|(ak, av)| ak == kk && av == vv));
+                        if in_ancestor {
+                            continue;
+                        }
+                        match added.get(&(mi, kk.clone())) {
+                            Some(v0) if v0 != vv => conflict = true,
+                            Some(_) => {}
+                            None => fresh.push(((mi, kk.clone()), vv.clone())),
+                        }
+                    }
+                }
+                if conflict {
+                    ctx.count("edit-conflicts-with-another-descendant(skipped)");
+                    continue;
+                }
+                for (k2, v2) in fresh {
+                    added.insert(k2, v2);
                 }
                 parts[di] = trial;
                 applied[di].push(format!("{:?}@in{}/out{}", u, ii, oi));
